@@ -28,18 +28,20 @@ Proof. intros f p. reflexivity. Qed.
 Lemma c21_refuted_unhashable : ~ c21_statement.
 Proof.
   intros H.
-  specialize (H W_all (TSet false (TList (TBase CInt))) (TList (TList (TBase CInt))) (VList [VList [VInt 1]])
+  specialize (H W_all (TSet false (TList (TBase CInt))) (TList (TList (TBase CInt))) (VList None [VList None [VInt None 1]])
                 W_all_total eq_refl eq_refl ltac:(discriminate) ltac:(vm_compute; reflexivity)).
-  assert (conforms live (TList (TList (TBase CInt))) (VList [VList [VInt 1]])) as Hc.
-  { exists [VList [VInt 1]]. split; [reflexivity|]. constructor; [|constructor].
-    exists [VInt 1]. split; [reflexivity|]. constructor; [vm_compute; reflexivity|constructor]. }
+  assert (conforms live (TList (TList (TBase CInt))) (VList None [VList None [VInt None 1]])) as Hc.
+  { split; [vm_compute; reflexivity|]. exists None, [VList None [VInt None 1]]. split; [reflexivity|].
+    constructor; [|constructor].
+    split; [vm_compute; reflexivity|]. exists None, [VInt None 1]. split; [reflexivity|].
+    constructor; [vm_compute; reflexivity|constructor]. }
   specialize (H Hc eq_refl ETypeError ltac:(vm_compute; reflexivity)). discriminate.
 Qed.
 
 (* not vacuous: a connection that is accepted, whose values are converted *)
 Example ex_c21 :
   check_type live (TTupleVar (TBase CFloat)) (TList (TBase CInt)) = Ok tt /\
-  coerce live W_all false (TTupleVar (TBase CFloat)) (VList [VInt 1; VBool true]) = Ok (VTuple [VFloat 1; VFloat 1]).
+  coerce live W_all false (TTupleVar (TBase CFloat)) (VList None [VInt None 1; VBool true]) = Ok (VTuple None [VFloat None 1; VFloat None 1]).
 Proof. split; vm_compute; reflexivity. Qed.
 Example ex_c21_rejected : check_type live (TList (TBase CInt)) (TList (TBase CStr)) = Err ETypeError.
 Proof. vm_compute. reflexivity. Qed.
